@@ -379,7 +379,7 @@ impl Check for C03 {
         }
     }
     fn rule_text(&self) -> String {
-        "one (input, history) executed under 2..4 independently drawn configurations (capacity x growing policy {Std, DoubleUntil(k), +1, +k, x3, jump, DoubleUntilLimited(k, large)} x chunk script incl. 1-byte and Interrupted x forced cut offsets); no reference model: full observation logs compared pairwise (call by call for histories of Next/OwnedNext/ReadSetExact/SeekSeen incl. positions and error messages; flattened record stream + terminal outcome for histories with plain ReadSet, whose batch boundaries legitimately depend on the capacity). Non-trivial: a configuration refilled, grew or was interrupted; distinct = distinct (input, event log) hash.".into()
+        "one (input, history) executed under 2..4 independently drawn configurations (capacity x growing policy {Std, DoubleUntil(k), +1, +k, x3, jump, DoubleUntilLimited(k, large)} x chunk script incl. 1-byte and Interrupted x forced cut offsets; in one scenario in three the first configuration holds the whole input and gets it in one piece); no reference model: full observation logs compared pairwise (call by call for histories of Next/OwnedNext/ReadSetExact/SeekSeen incl. positions and error messages; flattened record stream + terminal outcome for histories with plain ReadSet, whose batch boundaries legitimately depend on the capacity). Non-trivial: a configuration refilled, grew or was interrupted; distinct = distinct (input, event log) hash.".into()
     }
     fn assumptions(&self) -> Vec<String> {
         vec!["differential oracle only: a defect that shows identically under every configuration is invisible here (C01/C02 cover that)".into()]
@@ -394,7 +394,7 @@ impl Check for C03 {
         scenario_is_risky(scn)
     }
     fn expected_probes(&self) -> Vec<&'static str> {
-        vec!["refill", "growth", "leading_blank_exceeds_capacity"]
+        vec!["refill", "growth", "leading_blank_exceeds_capacity", "whole_input_anchor"]
     }
 }
 
@@ -647,7 +647,7 @@ impl Check for C14 {
         scenario_is_risky(scn)
     }
     fn expected_probes(&self) -> Vec<&'static str> {
-        vec!["refill", "growth", "seek_real"]
+        vec!["refill", "growth", "seek_real", "seek_failed_with_interrupted"]
     }
 }
 
@@ -1474,7 +1474,7 @@ impl Check for C12 {
         out.into_iter().map(|x| serde_json::to_value(x).unwrap()).collect()
     }
     fn rule_text(&self) -> String {
-        "abstract well-formed file (records with CR/LF-free fields incl. non-UTF-8 bytes, empty headers, FASTA records without sequence) rendered {LF, CRLF} x {final terminator, none} (+ per-line mixtures for FASTA), each rendering read under an independently drawn (capacity, policy, chunk script with Interrupted, cut offsets) via next() or record sets. Oracle is a relation between the runs: same records, same header line numbers, no error in any rendering, no carriage return in any returned field. Non-trivial: a rendering refilled or grew; distinct by (input, event log).".into()
+        "abstract well-formed file (records with CR/LF-free fields incl. non-UTF-8 bytes, empty headers, FASTA records without sequence; FASTQ separator lines bare, repeating the header, or with a short text, so that they differ in length) rendered {LF, CRLF} x {final terminator, none} (+ per-line mixtures for FASTA), each rendering read under an independently drawn (capacity, policy, chunk script with Interrupted, cut offsets) via next() or record sets. Oracle is a relation between the runs: same records, same header line numbers, no error in any rendering, no carriage return in any returned field. Non-trivial: a rendering refilled or grew; distinct by (input, event log).".into()
     }
     fn assumptions(&self) -> Vec<String> {
         vec!["relation between runs only; absolute correctness of the records is C01/C02".into()]
